@@ -83,4 +83,13 @@ theorem C10_single (header max : Nat) (sizes : List Nat) (track : Bool) (hh : 0 
 example : (split 4 1200 [700, 700] false).length = 2 ∧ (split 4 1200 [1300, 700] false).length = 1
     ∧ (split 4 1200 [20, 20] false).length = 1 ∧ (split 4 1200 [] true).length = 1 := by decide
 
+/-- Known finding F22, machine-checked on the packing model (replay: `findings/F22.trace`): with
+per-tick tracking the loop reasons with a header of 14 bytes (10 reserved for a counter that
+takes 1).  Chunks of 107 and 34 bytes against a maximum of 120: 14 + 107 = 121 leaves a
+"dangling" byte, so the second chunk is packed and the message goes out with 5 + 141 = 146
+bytes — although by the real header size each chunk fits a message of its own. -/
+theorem C10_known_finding_F22_witness :
+    split 14 120 [107, 34] true = [[107, 34]] ∧ split 5 120 [107, 34] false = [[107], [34]] := by
+  decide
+
 end Replicon.C10
